@@ -24,6 +24,32 @@ DUMP_SLOW = float(_os.environ.get('VERIF_DUMP_SLOW', '0'))
 QUERY_TIMEOUT_MS = int(_os.environ.get('VERIF_QUERY_TIMEOUT_MS', '60000'))
 
 
+XCHECK = int(_os.environ.get('VERIF_XCHECK', '0'))  # re-check up to this many verdict queries per obligation with cvc5
+
+
+def cvc5_check(smt2, timeout_ms=20000):
+    """decide an SMT-LIB2 script (as produced by Solver.to_smt2) with cvc5; returns 'sat' / 'unsat' / 'unknown'"""
+    import cvc5
+    slv = cvc5.Solver()
+    slv.setOption('tlimit-per', str(timeout_ms))
+    slv.setLogic('QF_LIRA')
+    parser = cvc5.InputParser(slv)
+    parser.setStringInput(cvc5.InputLanguage.SMT_LIB_2_6, smt2, 'query')
+    sm = parser.getSymbolManager()
+    out = []
+    while True:
+        cmd = parser.nextCommand()
+        if cmd.isNull():
+            break
+        r = cmd.invoke(slv, sm)
+        if r:
+            out.append(str(r).strip())
+    for r in reversed(out):
+        if r in ('sat', 'unsat', 'unknown'):
+            return r
+    return 'unknown'
+
+
 class PathEnd(BaseException):
     """Abort the current path (infeasible assumption or explicit bound).  BaseException so that the
     real code's `except Exception` clauses do not swallow it."""
@@ -46,6 +72,12 @@ class Stats:
         self.solver_s = 0.0
         self.forced = 0
         self.decisions = 0
+        self.xchecked = 0
+        self.xcheck_agree = 0
+        self.xcheck_disagree = 0
+        self.xcheck_unknown = 0
+        self.xcheck_errors = 0
+        self.xcheck_s = 0.0
 
     def as_dict(self):
         return dict(self.__dict__)
@@ -114,6 +146,25 @@ class Explorer:
         if DUMP_SLOW:
             smt = self.solver.to_smt2()
         r = self.solver.check()
+        if verdict and XCHECK and self.stats.xchecked < XCHECK and r in (z3.sat, z3.unsat):
+            try:
+                t1 = time.time()
+                smt2 = self.solver.to_smt2().replace('(set-info :status', '; (set-info :status')
+                r2 = cvc5_check(smt2)
+                self.stats.xcheck_s += time.time() - t1
+                self.stats.xchecked += 1
+                if r2 in ('sat', 'unsat'):
+                    if r2 != str(r):
+                        self.stats.xcheck_disagree += 1
+                    else:
+                        self.stats.xcheck_agree += 1
+                else:
+                    self.stats.xcheck_unknown += 1
+            except Exception as e:  # the cross-check is best effort; its failure is recorded, not fatal
+                self.stats.xcheck_errors += 1
+                self.stats.xchecked += 1
+                if _os.environ.get('VERIF_XCHECK_DEBUG'):
+                    print('XCHECK ERROR', type(e).__name__, str(e)[:300])
         if DUMP_SLOW and time.time() - t > DUMP_SLOW:
             open('/tmp/slow_%d.smt2' % int(time.time() * 1000), 'w').write(smt)
         m = self.solver.model() if r == z3.sat else None
